@@ -28,7 +28,9 @@ static std::string run_case(const Box& b, bool is3d, Stats& st) {
     double mx[3]; for (int k = 0; k < 3; k++) mx[k] = b.mn[k] + b.ext[k] * b.voxel;
     // lattice of half-voxel spacing inside the box, the faces / edges / corners included (last coordinate = max exactly)
     std::vector<double> ax[3];
-    for (int k = 0; k < 3; k++) { int n = (int)std::floor(b.ext[k] * 2 + 1e-9); for (int i = 0; i <= n; i++) { double v = b.mn[k] + i * 0.5 * b.voxel; if (v > mx[k]) v = mx[k]; ax[k].push_back(v); } if (ax[k].back() != mx[k]) ax[k].push_back(mx[k]); }
+    for (int k = 0; k < 3; k++) { int n = (int)std::floor(b.ext[k] * 2 + 1e-9); for (int i = 0; i <= n; i++) { double v = b.mn[k] + i * 0.5 * b.voxel; if (v > mx[k]) v = mx[k]; ax[k].push_back(v); } if (ax[k].back() != mx[k]) ax[k].push_back(mx[k]);
+        // the representable numbers just inside the two faces (where index arithmetic and face clamping meet)
+        ax[k].push_back(std::nextafter(mx[k], b.mn[k])); ax[k].push_back(std::nextafter(b.mn[k], mx[k])); }
     std::vector<std::array<double, 3>> pts;
     for (double x : ax[0]) for (double y : ax[1]) for (double z : ax[2]) pts.push_back({x, y, z});
     GRID g(b.mn[0], b.mn[1], b.mn[2], mx[0], mx[1], mx[2], b.voxel, pts.size());
@@ -100,7 +102,7 @@ done:
     R["evaluations"] = st.points + st.nb_queries; R["transitions"] = st.points + st.nb_queries; R["states"] = cases; R["distinct_nontrivial"] = cases;
     R["traces_validated_against_impl"] = cases; R["boxes"] = boxes; R["points_placed"] = st.points; R["neighbourhood_queries"] = st.nb_queries;
     R["points_on_box_boundary"] = st.boundary_points; R["points_on_max_corner"] = st.max_corner_points; R["cases_with_extent_multiple_of_voxel"] = exact_multiple;
-    R.strings["rule"] = "a case = (grid class, box min corner, magnitude, extents per axis in voxels, voxel size); every lattice point of half-voxel spacing in the closed box (faces, edges, corners, max corner) is indexed, placed, retrieved and used as neighbourhood query; reference = brute force over all stored points; distinct_nontrivial = cases";
+    R.strings["rule"] = "a case = (grid class, box min corner, magnitude, extents per axis in voxels, voxel size); every lattice point of half-voxel spacing in the closed box (faces, edges, corners, max corner) plus, on every axis, the representable numbers just inside the min and max faces is indexed, placed, retrieved and used as neighbourhood query; reference = brute force over all stored points; distinct_nontrivial = cases";
     R.assumptions = {"uspg_3d keeps one object per voxel by design: 'stored' means the last object placed in each voxel", "neighbourhood inclusion required for Euclidean distance <= voxel*(1-1e-9) (one part in 1e9 of slack for the rounding of the index computation)",
                      "a point may be attributed to either voxel when it lies on a voxel boundary (tolerance 1e-9 voxel)"};
 }
